@@ -133,3 +133,26 @@ Section ListSitesProofs.
     - rewrite !visit_none_gen. simpl. rewrite Hacc. reflexivity.
   Qed.
 End ListSitesProofs.
+
+(* ------------------------------------------------------------------ the walk over a tree *)
+
+Lemma pick_app {C} j idx (a b : list C) :
+  pick j idx (a ++ b) = pick j idx a ++ pick j (idx + zlen a) b.
+Proof.
+  revert idx. induction a as [|x a IH]; intros idx.
+  - simpl. change (zlen (@nil C)) with 0. rewrite Z.add_0_r.
+    unfold pick at 2. change (zlen (@nil C)) with 0.
+    destruct ((idx <=? j) && (j <? idx + 0)) eqn:E; [|reflexivity].
+    apply andb_true_iff in E as [E1 E2]. lia.
+  - simpl app. destruct (Z.eq_dec idx j) as [->|Hne].
+    + rewrite !pick_cons_hit. rewrite pick_passed; [reflexivity|].
+      unfold zlen. simpl length. lia.
+    + rewrite !pick_cons_miss by exact Hne. rewrite IH. f_equal. f_equal.
+      unfold zlen. simpl length. lia.
+Qed.
+
+Lemma pick_beyond {C} j idx (l : list C) : idx + zlen l <= j -> pick j idx l = [].
+Proof.
+  intros H. unfold pick. destruct (Z.ltb_spec j (idx + zlen l)); [lia|]. rewrite andb_false_r. reflexivity.
+Qed.
+
